@@ -157,6 +157,7 @@ def check(chk: Check) -> None:
     R4 = chk.rule('C03.R4', 'the size check comes first: in every element-adding builtin no keyed access, method call or '
                             'hand-over of the container precedes its size check (a host mapping\'s __getitem__/__missing__ may '
                             'insert; a failed operation must leave the container unchanged)', floor=3)
+    _r5(chk)
     chk.decided += ['clause 2 of the statement (element-adding operations at the cap): guard comparison, constant, failure '
                     'class and dominance over every +1 growth path (R1, R2)',
                     'clause 1 as an inductive invariant: inventory of every reachable primitive that can exceed '
@@ -418,3 +419,56 @@ def _first_touch(F, p: Path, label: str, fi, ignore, out) -> None:
         if checked:
             unit = label.split(' [')[0]
             out.setdefault('%s :: size check of `%s` comes first' % (unit, show(X)), (True, fi.where, 'nothing touches the container before its size check'))
+
+
+def _r5(chk: Check) -> None:
+    """The guard `len(x) >= cap` in front of a store assumes that one store adds at most one element.  That holds for a
+    position or a key; a slice on the left of a store replaces a range by arbitrarily many elements."""
+    F = chk.facts
+    R5 = chk.rule('C03.R5', 'one store, one element: the key a grammar action hands to an element-storing builtin is never a '
+                            'slice node, and no storing builtin builds a slice key itself', floor=2)
+    from . import common
+    from .. import functab
+    tab = functab.table(F)
+    SLICE = ('ref', 'builtin', 'slice')
+    slice_classes = set()
+    for cls in om.op_classes(F):
+        if (cls + '.eval') in F.functions and om.own_eval(F, cls):
+            for p in om.eval_paths(F, cls):
+                r = p.outcome[1] if p.normal else None
+                if isinstance(r, tuple) and r[:1] == ('call',) and r[2] == SLICE:
+                    slice_classes.add(cls)
+    # keyed writers: table functions that store through (container parameter)[...]
+    writers = {}
+    for key, ent in tab.items():
+        fi = ent.funcinfo(F)
+        if fi is None or not fi.node.args.args:
+            continue
+        params = [a.arg for a in fi.node.args.args]
+        c0 = ('param', params[0])
+        stores = []
+        for p in SymExec(F, fi).run():
+            for e in p.events:
+                if e.kind in ('store_sub', 'aug_sub') and freeze(e.obj) == c0:
+                    stores.append(e)
+        if stores and len(params) >= 2:
+            writers[key] = (fi, stores)
+    from .. import ctx as C_
+    grel = C_.grammar(F).module.rel
+    n = 0
+    for t, name, args in common.lowered_calls(chk):
+        if name not in writers or not isinstance(args, tuple) or args[:1] != ('list',) or len(args) < 3:
+            continue
+        n += 1
+        keyarg = args[2]
+        bad = isinstance(keyarg, tuple) and keyarg[:1] == ('new',) and keyarg[1] in slice_classes
+        chk.require(not bad, R5, 'template %s -> %r' % (t.prod, name), '%s:%d' % (grel, t.prod.line),
+                    'the key is a slice node (%s): `x[a:b] = ys` stores len(ys) elements behind a check that allows for one' % show(keyarg)
+                    if bad else 'the key is a single position / key expression')
+    for key, (fi, stores) in sorted(writers.items()):
+        sl = [e for e in stores if isinstance(freeze(e.index), tuple) and (freeze(e.index)[:1] == ('slice',) or
+              (freeze(e.index)[:1] == ('call',) and freeze(e.index)[2] == SLICE))]
+        chk.require(not sl, R5, 'FUNCTIONS[%r] stores' % key, fi.where, '`%s` stores through a slice' % sl[0].text() if sl else
+                    '%d subscript store(s), none through a slice the function builds' % len(stores))
+    if n == 0:
+        raise AnalysisError('anchor vanished: no grammar action lowers to an element-storing builtin')
